@@ -89,6 +89,7 @@ func runRT(pl RTPlan) (res vfx.Result) {
 		}
 	}()
 	m := sub.M
+	sub.EP.ShutdownDelay = 15 * time.Millisecond // tearing down real listeners takes a moment
 	var mu sync.Mutex
 	var firstErr error
 	target := &memberlist.Node{Name: "ghost", Addr: []byte{10, 0, 0, 99}, Port: 7946}
@@ -114,7 +115,14 @@ func runRT(pl RTPlan) (res vfx.Result) {
 					case "leave":
 						_ = m.Leave(30 * time.Millisecond)
 					case "shutdown":
-						return m.Shutdown()
+						if err := m.Shutdown(); err != nil {
+							return err
+						}
+						// whichever call this was: once it has returned, the transport is closed
+						if !sub.EP.IsShutdown() {
+							return fmt.Errorf("Shutdown returned while the transport was still open (another Shutdown call was still tearing it down)")
+						}
+						return nil
 					case "members":
 						_ = m.Members()
 					case "nummembers":
